@@ -51,6 +51,8 @@ def followup(rng: Rng, world_cfg: Cfg, names=("S", "D")) -> tuple[Cfg, Pacing]:
     c.src_path, c.dst_path = T_SRC, T_DST
     c.dirs_d, c.dfiles, c.metadata_only, c.msgs = (), (), False, "-"
     c.put_mode, c.put_closure = rng.choice("-AU"), rng.choice("-01")
+    if rng.chance(0.15):
+        c.metadata_only = True          # a metadata-only request after whatever the history was
     return c, Pacing()
 
 
@@ -87,6 +89,10 @@ def reuse_case(rng: Rng):
             # length of exactly 0 — whose empty File Data PDUs cannot be encoded)
             if int(c.did.split('/')[0]) >= 256 ** int(hc.put_did.split('/')[1]) or hc.seg_len == 0:
                 hc.put_did = ""
+        if not same_path and not hc.metadata_only and rng.chance(0.15):
+            # an earlier transaction sends an empty file
+            hc.data = b""
+            lh.sess.do(f"file S {hc.src_path} -")
         if same_path:
             hc.src_path, hc.dst_path, hc.data = T_SRC, T_DST, hdata
             hc.dirs_d, hc.dfiles, hc.metadata_only = (), (), False
